@@ -24,7 +24,7 @@ CLASSES = {
     "Color": P.Color, "Level": P.Level, "Perm": P.Perm, "Outer.Inner": P.Outer.Inner,
     "Point": P.Point, "FPoint": P.FPoint, "Box": P.Box, "APoint": P.APoint,
     "AFrozen": P.AFrozen, "PModel": P.PModel, "NT": P.NT, "TNT": P.TNT,
-    "Outer.Cfg": P.Outer.Cfg, "Opaque": P.Opaque, "Vec": P.Vec,
+    "Outer.Cfg": P.Outer.Cfg, "Opaque": P.Opaque, "Vec": P.Vec, "APriv": P.APriv, "PAlias": P.PAlias,
     "int": int, "str": str, "list": list, "dict": dict, "set": set, "float": float,
     "bytes": bytes, "tuple": tuple, "bool": bool, "frozenset": frozenset,
     "defaultdict": P.defaultdict,
@@ -33,14 +33,14 @@ CLASSES = {
 CALL_FIELDS = {
     "Point": ["x", "y"], "FPoint": ["x", "y"], "Box": ["items", "name", "meta"],
     "APoint": ["a", "b", "c"], "AFrozen": ["k", "v"], "PModel": ["n", "tags", "opt"],
-    "NT": ["a", "b"], "TNT": ["p", "q"], "Outer.Cfg": ["n"],
+    "NT": ["a", "b"], "TNT": ["p", "q"], "Outer.Cfg": ["n"], "APriv": ["x", "y"], "PAlias": ["n", "other"],
 }
 REQUIRED = {
     "Point": ["x"], "FPoint": ["x"], "Box": [], "APoint": ["a"], "AFrozen": ["k"],
-    "PModel": ["n"], "NT": ["a"], "TNT": ["p"], "Outer.Cfg": [],
+    "PModel": ["n"], "NT": ["a"], "TNT": ["p"], "Outer.Cfg": [], "APriv": ["x"], "PAlias": ["n"],
 }
 HASHABLE_CALLS = ["FPoint", "AFrozen", "NT", "TNT"]
-UNHASHABLE_CALLS = ["Point", "Box", "APoint", "PModel", "Outer.Cfg"]
+UNHASHABLE_CALLS = ["Point", "Box", "APoint", "PModel", "Outer.Cfg", "APriv", "PAlias"]
 
 
 def build(d):
@@ -83,6 +83,8 @@ def build(d):
         return P.Opaque(d[1])
     if k == "vec":
         return P.Vec(*[build(x) for x in d[1]])
+    if k == "dinit":
+        return P.make_dinit(build(d[1]), build(d[2]))
     raise ValueError(k)
 
 
@@ -134,6 +136,8 @@ def render(d) -> str:
         return f"Opaque({d[1]!r})"
     if k == "vec":
         return "Vec(*[" + ", ".join(render(x) for x in d[1]) + "])"
+    if k == "dinit":
+        return f"make_dinit({render(d[1])}, {render(d[2])})"
     raise ValueError(k)
 
 
@@ -181,6 +185,8 @@ def natural(d) -> str:
         return f"Opaque({d[1]!r})"
     if k == "vec":
         return "Vec(" + ", ".join(natural(x) for x in d[1]) + ")"
+    if k == "dinit":
+        return f"make_dinit({natural(d[1])}, {natural(d[2])})"
     raise ValueError(k)
 
 
@@ -204,6 +210,9 @@ def walk(d):
     elif k == "call":
         for _n, v in d[2]:
             yield from walk(v)
+    elif k == "dinit":
+        yield from walk(d[1])
+        yield from walk(d[2])
 
 
 def depth(d):
